@@ -2,7 +2,7 @@ SPECIFICATION Spec
 CONSTANTS
   Bytes = {0, 62, 63, 251, 255, 65}
   MaxLen = 6
-  RandLens = {7, 8, 9, 10, 11, 12, 13, 14, 15, 16, 17, 18, 19, 20, 21, 22, 23, 24, 25, 26, 27, 28, 29, 30, 31, 32, 33, 34, 35, 36, 37, 38, 39, 40, 47, 48, 49, 63, 64, 65, 100, 127, 128, 129, 255, 256, 257}
-INVARIANTS RoundTrip RoundTripNoPad LenLaw DecLenLaw PadLaw Canonical JunkIsJunk TolerantIgnoresJunk FilterLaw
+  RandLens = {7, 8, 9, 10, 11, 12, 13, 14, 15, 16, 17, 18, 19, 20, 21, 22, 23, 24, 25, 26, 27, 28, 29, 30, 31, 32, 33, 34, 35, 36, 37, 38, 39, 40, 47, 49, 63, 64, 65, 100, 127, 128, 129, 255, 256, 257}
+INVARIANTS RoundTrip RoundTripNoPad LenLaw DecLenLaw PadLaw Canonical TolerantIgnoresJunk FilterLaw
 CONSTRAINT Emit
 CHECK_DEADLOCK FALSE
